@@ -26,9 +26,9 @@ CLAIMED.update({
              "alphabets for the complex and the real family, each in a fresh thread, plus random histories over 40 lengths with "
              "long-lived plan objects, in builds with cache size 4 (and 1, 2 thorough); the hook reports each cache access with the "
              "key list after it and TLC steps the model with the observed accesses, checking key lists, capacity, ownership "
-             "and that every result equals the fresh-thread result.",
+             "and that every result equals the fresh-thread result bit for bit.",
         note="Trusted: TLC, PlanCache.tla, the DSPLIB_VERIF hook in lib/fft/fft.cpp (reports keys after each access), the "
-             "fresh-thread reference computed by the same library (metamorphic, 4 n eps). Which lengths a call routes through "
+             "fresh-thread reference computed by the same library (metamorphic, bit identity). Which lengths a call routes through "
              "the cache is read from the trace, not predicted.",
         technique="TLA+ LRU spec + TLC MC; trace validation of hook events from exhaustive request histories",
         design="4/C10"),
